@@ -1370,25 +1370,29 @@ void base_str<CharT>::EnsureAlloced(size_t amount, bool keepold)
 
     CharT* newbuffer;
 
-    if (amount < m_data->alloced) {
+    if (amount <= m_data->alloced && !m_data->refcount)
+    {
+        // large enough and not shared with another string: keep it
         return;
     }
 
-    if (amount == m_data->alloced && !m_data->refcount)
+    if (keepold && amount < m_data->len + 1)
     {
-        // don't bother reallocating if it's the same amount
-        return;
+        // the old characters must fit
+        amount = m_data->len + 1;
     }
 
     assert(amount);
 
     unsigned char* buf = (unsigned char*)allocateMemory(sizeof(strdata<CharT>) + sizeof(CharT) * amount);
     strdata<CharT>* newdata = new (buf) strdata<CharT>;
+    newdata->alloced = amount;
     newbuffer = reinterpret_cast<CharT*>(buf + sizeof(strdata<CharT>));
 
     if (keepold)
     {
         copy(newbuffer, m_data->data());
+        newdata->len = m_data->len;
     }
 
     m_data->DelRef();
